@@ -81,5 +81,6 @@ fn c15_pool_add_accounting_step() {
     kani::cover!(dropped > 0 && consumer_gone, "consumer gone: buffer dropped and counted");
     kani::cover!(added == 2, "buffer of two delivered");
     kani::cover!(handed_over == 0 && psize == 2, "record buffered without hand-over");
+    vs::edge_covers();
     core::mem::forget(pool);
 }
